@@ -246,6 +246,22 @@ def run_repo_tests(spec, ctx):
     ctx.sample({"repository_tests_under_monitors": {k: v for k, v in rep.items() if k != "problems"}}, key="repotests")
 
 
+def make_decoys():
+    """other live objects of the library, kept alive for the whole shard: a string-typed dataset whose names are the digit
+    strings of the integers every workload uses ("0" .. "12", next to a word), an integer dataset, a consensus, schemes.
+    Interning, sharing or memoising by value / by printed form between unrelated objects shows up against them."""
+    try:
+        import corankco as ck
+        names = [str(i) for i in range(13)]
+        d_str = ck.Dataset.from_raw_list([[{"word"}] + [{x} for x in names], [{x} for x in reversed(names)] + [{"word"}]])
+        d_int = ck.Dataset.from_raw_list([[{i} for i in range(13)], [set(range(13))]])
+        sch = ck.ScoringScheme.get_unifying_scoring_scheme()
+        cons = ck.CopelandMethod().compute_consensus_rankings(d_str, sch, True)
+        return [d_str, d_int, sch, cons, cons.kemeny_score, ck.Ranking([{"3"}, {"a"}, {"7"}]), d_str.get_positions()]
+    except Exception:      # pylint: disable=broad-except
+        return []
+
+
 def main(argv):
     specfile, outfile = argv[1], argv[2]
     with open(specfile) as f:
@@ -258,6 +274,7 @@ def main(argv):
         ctx.error("mode B: the bounds-check canary kernel did not raise IndexError")
     if hasattr(mod, "setup"):
         mod.setup(ctx)
+    ctx.decoys = make_decoys()
     cover_files = sorted({a[0] for a in getattr(mod, "ANCHORS", [])} | set(spec.get("cover_files") or []))
     if os.environ.get("VERIF_COVER_ALL") == "1":
         from vf import cover
